@@ -204,3 +204,99 @@ Definition step (fk fl : bool) (s : st) (o : op) : st :=
   end.
 
 Definition run (fk fl : bool) (t : bool) (ops : list op) : st := fold_left (step fk fl) ops (init t).
+
+(* ================================================================================================
+   Checkpoint vertices (connector.cpp:156-163 ~ConnRef, 198-227 setRoutingCheckpoints, 1064-1070
+   generateCheckpointsPath).  A layer over the core model above: the core state and the core ops are
+   unchanged; the extended alphabet adds  XSetCP c k  = ConnRef::setRoutingCheckpoints with k points.
+
+   Checkpoint VertInfs are heap objects of their own (id space separate from shapes / connectors; ids
+   come from an allocation counter and are never reused) and are owned by the connector through
+   `cpv` = all the ConnRef::m_checkpoint_vertices lists, in order.
+     setRoutingCheckpoints: removeFromGraph + delete every old vertex of the connector, [clear the
+       list], allocate k new vertices, append them; a polyline router then runs vertexVisibility on
+       list entries 0..k-1.
+     ~ConnRef (the only place a connector is freed): removeFromGraph + delete every vertex in its list.
+     rerouting at the end of a processTransaction that did something: generateCheckpointsPath
+       dereferences every vertex in the list of every active connector (over-approximation: the real
+       code only does so for connectors whose route is invalid).
+   Switch  fc = true: the list is cleared after the old vertices were freed (current code);
+           fc = false: the freed vertices stay in the list (variant `clear()` dropped).
+   `vbad` logs a dereference or a free of a checkpoint vertex that is not allocated. *)
+Inductive xop := XCore (o : op) | XSetCP (c : nat) (k : nat).
+
+Record xst := mkx {
+  core : st;
+  vheap : list nat;             (* allocated checkpoint vertices *)
+  cpv : list (nat * nat);       (* (connector, vertex): the m_checkpoint_vertices lists *)
+  vfreed : list nat;            (* history of checkpoint-vertex frees *)
+  vbad : list nat;              (* use after free / double free of a checkpoint vertex *)
+  vnext : nat;                  (* allocation counter *)
+  poly : bool }.                (* Router::m_allows_polyline_routing *)
+
+Definition xinit (t p : bool) : xst := mkx (init t) [] [] [] [] 0 p.
+
+Definition set_core (x : xst) (s : st) : xst := mkx s (vheap x) (cpv x) (vfreed x) (vbad x) (vnext x) (poly x).
+Definition set_cpv (x : xst) (l : list (nat * nat)) : xst :=
+  mkx (core x) (vheap x) l (vfreed x) (vbad x) (vnext x) (poly x).
+
+Definition vderef (v : nat) (x : xst) : xst :=
+  if mem v (vheap x) then x
+  else mkx (core x) (vheap x) (cpv x) (vfreed x) (v :: vbad x) (vnext x) (poly x).
+Definition vfree (v : nat) (x : xst) : xst :=
+  mkx (core x) (remove_nat v (vheap x)) (cpv x) (v :: vfreed x)
+      (if mem v (vheap x) then vbad x else v :: vbad x) (vnext x) (poly x).
+Definition vfree_all (l : list nat) (x : xst) : xst := fold_left (fun x v => vfree v x) l x.
+Definition vderef_all (l : list nat) (x : xst) : xst := fold_left (fun x v => vderef v x) l x.
+
+Definition owned_by (c : nat) (cv : nat * nat) : bool := Nat.eqb c (fst cv).
+Definition cp_of (c : nat) (l : list (nat * nat)) : list nat := map snd (filter (owned_by c) l).
+
+(* ConnRef::setRoutingCheckpoints(k points) *)
+Definition set_cp (fc : bool) (x : xst) (c k : nat) : xst :=
+  let x1 := vfree_all (cp_of c (cpv x)) x in
+  let kept := if fc then filter (fun cv => negb (owned_by c cv)) (cpv x1) else cpv x1 in
+  let new := seq (vnext x1) k in
+  let x2 := mkx (core x1) (new ++ vheap x1) (kept ++ map (pair c) new) (vfreed x1) (vbad x1)
+                (vnext x1 + k) (poly x1) in
+  if poly x2 then vderef_all (firstn k (cp_of c (cpv x2))) x2 else x2.
+
+(* ~ConnRef of every connector that has just been freed *)
+Definition owner_live (x : xst) (cv : nat * nat) : bool := mem (fst cv) (heap (core x)).
+Definition reap (x : xst) : xst :=
+  let x1 := vfree_all (map snd (filter (fun cv => negb (owner_live x cv)) (cpv x))) x in
+  set_cpv x1 (filter (owner_live x) (cpv x)).
+
+(* rerouteAndCallbackConnectors: generateCheckpointsPath of the active connectors *)
+Definition reroute (x : xst) : xst :=
+  vderef_all (map snd (filter (fun cv => mem (fst cv) (aconns (core x))) (cpv x))) x.
+
+(* does the (legal) core op o, applied in core state s, end in rerouteAndCallbackConnectors?
+   processTransaction returns early on an empty action list; deleteConnector and ~Router do not route *)
+Definition reroutes (s : st) (o : op) : bool :=
+  match o with
+  | OProcess => match queue s with [] => false | _ => true end
+  | ODelConn _ | ODestroy => false
+  | _ => negb (trans s)
+  end.
+
+Definition xlegal (x : xst) (o : xop) : bool :=
+  match o with
+  | XCore o => legal (core x) o
+  | XSetCP c _ => alive (core x) && mem c (heap (core x)) && mem c (cset (core x))
+  end.
+
+Definition xstep (fk fl fc : bool) (x : xst) (o : xop) : xst :=
+  if negb (xlegal x o) then x else
+  match o with
+  | XSetCP c k => set_cp fc x c k
+  | XCore o =>
+      let x1 := reap (set_core x (step fk fl (core x) o)) in
+      if reroutes (core x) o then reroute x1 else x1
+  end.
+
+Definition xrun (fk fl fc : bool) (t p : bool) (ops : list xop) : xst :=
+  fold_left (xstep fk fl fc) ops (xinit t p).
+
+(* live checkpoint vertices per connector, as the router's vertex list shows them *)
+Definition live_cp (x : xst) (c : nat) : nat := length (filter (fun v => mem v (vheap x)) (cp_of c (cpv x))).
